@@ -23,7 +23,10 @@ RULE = ("Hypothesis draws a logical file (C01 generator; plus DAQmx and scaled f
         "paths are always compared); distinct by SHA-1 of the case."
         ' A further job gives a NON-final segment an incomplete last chunk (lead-in states the shortened size) and '
         'demands, without a content model, that eager / lazy full reads, windows, integer indices and both chunk '
-        'streams agree with one another.')
+        'streams agree with one another.'
+        ' File-level chunks are also inspected only after the iteration has ended (offsets, values), chunk objects '
+        'through iteration / integer index / part slices, paths also as pathlib.Path, and a job reads a cut data file '
+        'by path next to its complete index file against the same bytes read as a stream.')
 ASSUMPTIONS = [
     "independent encoder vf/encode.py",
     "paths documented as unavailable in a mode (.data on a lazily opened non-empty channel, data_chunks() after an "
